@@ -75,7 +75,7 @@ m = {
  "hooks":{"guard":"CARQUET_VERIF",
   "enable":"sim/build.sh compiles every src/**/*.c of /repo's working tree with gcc -DCARQUET_VERIF (plus ASan, UBSan subset, -fsanitize-coverage=trace-pc, -fopenmp lowered to the simulator's own GOMP runtime); all other seams are link-time --wrap",
   "baseline_off_cmd":"cd /repo && cmake -G Ninja -B _build >/dev/null && cmake --build _build >/dev/null && ctest --test-dir _build -j8 --timeout 900",
-  "source_commits":["01aab17","2701701","607e5b6","383b73b"],"add_only":True},
+  "source_commits":["01aab17","2701701","607e5b6","383b73b","9dcf9d7"],"add_only":True},
  "engines":[{"name":"simrun","path":"/verif/sim","serves_properties":claimed,"kind_free_text":"deterministic simulator: seeded choice tape, simulated disk/stdio/mmap/allocator/OpenMP runtime/CPU, independent Parquet peer, reference models, gate+shrink+replay"}],
  "checks":[chk(p) for p in claimed],
  "not_applicable":[{"property_id":a,"reason":b} for a,b in NA],
